@@ -355,7 +355,7 @@ MonKey(k) ==
   /\ Len(k) >= 2 /\ k[1] = SYS
   /\ \/ k = <<SYS, SUBS>>
      \/ k[2] = LOCKS
-     \/ (Len(k) >= 4 /\ k[2] = CLIENTS /\ k[4] \in {SUBS, SINCE})
+     \/ (Len(k) >= 4 /\ k[2] = CLIENTS /\ k[4] \in {SUBS, SINCE, "protocolVersion"})
 Overlay(X, Snew) ==
   IF ~ExtMon THEN X
   ELSE LET mon  == {k \in DOMAIN Snew.store : MonKey(k) /\ Snew.store[k].k # "none"}
